@@ -118,7 +118,7 @@ Print Assumptions C15_terminates_run.
 (* ... and the hypothesis is needed: with a batch size 0 the loop never ends (observation O-cw2) *)
 Theorem C15_zero_batch_diverges :
   let st := [mkM 1 [(mkS 1 0 10 [], [mkT 7 1 100])] [(mkT 7 1 100, 1)]] in
-  forall fuel acc, infer_loop fuel false 0 1 (mkW 1 [] [(1, 0)]) st [(1, [mkS 1 0 10 []])] acc = Err 99.
+  forall fuel acc, infer_loop fuel false 0 1 (mkW 1 [] [(1, 0)] []) st [(1, [mkS 1 0 10 []])] acc = Err 99.
 Proof. exact zero_batch_never_terminates. Qed.
 Print Assumptions C15_zero_batch_diverges.
 
